@@ -5,6 +5,7 @@ import (
 	"flag"
 	"fmt"
 	"os"
+	"runtime"
 	"runtime/debug"
 	"runtime/pprof"
 	"strconv"
@@ -44,7 +45,8 @@ func repoDir() string {
 }
 
 func main() {
-	debug.SetGCPercent(400)
+	debug.SetGCPercent(1600)
+	debug.SetMemoryLimit(24 << 30)
 	if len(os.Args) < 2 {
 		fmt.Fprintln(os.Stderr, "usage: sver job|check|replay|selftest ...")
 		os.Exit(2)
@@ -59,6 +61,13 @@ func main() {
 		verbose := fs.Bool("v", false, "verbose")
 		prof := fs.String("cpuprofile", "", "write cpu profile")
 		fs.Parse(os.Args[2:])
+		if mp := os.Getenv("SVER_MEMPROFILE"); mp != "" {
+			defer func() {
+				f, _ := os.Create(mp)
+				runtime.GC(); pprof.Lookup("allocs").WriteTo(f, 0)
+				f.Close()
+			}()
+		}
 		if *prof != "" {
 			f, _ := os.Create(*prof)
 			pprof.StartCPUProfile(f)
